@@ -264,6 +264,9 @@ fn programs(family: &str) -> Vec<(String, Outcome)> {
             p("start :: fn do\n    print(z)\n    z := 1\nend\n", Outcome::Reject);
             p("start :: fn do\n    b :: b + 1\nend\n", Outcome::Reject);
             p("start :: fn do\n    y := 1\n    if true do\n        y := 2\n        print(y)\n    end\n    print(y)\nend\n", Outcome::Accept);
+            // innermost binding wins: the inner y is a str, the outer an int
+            p("start :: fn do\n    y := 1\n    if true do\n        y := \"s\"\n        z := y + \"t\"\n    end\nend\n", Outcome::Accept);
+            p("start :: fn do\n    y := 1\n    if true do\n        y := \"s\"\n        z := y + 1\n    end\nend\n", Outcome::Reject);
         }
         "pure" => {
             p("start :: fn do\n    c :: 1\n    c = 2\nend\n", Outcome::Reject);
